@@ -83,6 +83,33 @@
 (* segment view" for every extent: the walker is the same machine, and       *)
 (* AlignOnlyInHeaders shows that the declared alignment changes nothing but  *)
 (* the two header fields.                                                   *)
+(* Fourth round, two more dimensions.                                       *)
+(* (1) Where a decoded descriptor lies in the file.  The linux-abi property  *)
+(* array is a sequence of elements pr_type, pr_datasz, pr_data, pr_padding   *)
+(* whose sizes are multiples of 8 (ELFCLASS64) / 4 (ELFCLASS32): the place   *)
+(* of the next property is the place of this one plus its padded size - a    *)
+(* function of pr_datasz alone, whatever the file offset of the descriptor.  *)
+(* Linkers before the 8-byte .note.gnu.property alignment was settled (and   *)
+(* ld -r / objcopy merging note sections) leave ELFCLASS64 property notes    *)
+(* behind other notes at offsets that are 4 mod 8.  A plain note in front    *)
+(* (Leads, now also in the quick tier: sizes 20 and 36 - the build-id size -, *)
+(* both 4 mod 8) moves the descriptor of the decoded note there; the rival   *)
+(* reading "every property starts at a file offset that is a multiple of the *)
+(* alignment" (PropWalkAbs) is shown to differ on those cases (`propabs` in  *)
+(* the emitted case, counted by the driver), and PropsRelative states that   *)
+(* the walk relative to the descriptor recovers the abstract list at every   *)
+(* descriptor offset while both readings coincide on aligned descriptors.    *)
+(* (2) Units of a stab section (GDB stabs, "Stab Section Basics"): the       *)
+(* first stab of each compilation unit is synthetic: n_type N_UNDF (0),      *)
+(* n_other 0, n_desc = the count of stabs that follow in this unit, n_value  *)
+(* = the size of the unit's string table fragment, n_strx = offset of the    *)
+(* file name.  A section holds one unit per object file that went into the   *)
+(* link (ld -r, concatenated objects), so a header's count covers its own    *)
+(* unit only and says nothing about where the section ends: "enumerated      *)
+(* exactly" = every 12-byte record up to sh_size, headers included.  The     *)
+(* writer opens units (AddUndf), the counts are derived (StabRecs), and       *)
+(* UnitsTile states that the units tile the section from the first header on *)
+(* while the reader (ReadStab) still yields Len(stabs) records.              *)
 (***************************************************************************)
 EXTENDS Elf, NoteWalk, Json, CSV, IOUtils
 
@@ -153,6 +180,13 @@ NoPairs == {}
 Follow85 == {<<8, 5>>}
 Follow00 == {<<0, 0>>, <<8, 5>>}
 Lead31 == {<<3, 1>>}
+\* what may follow a leading plain note in mode "desc": every decoded note (+ a following plain note), or - the quick tier, by
+\* `LeadScope <- LeadScopeProps` in the cfg - property lists only, the descriptors whose elements carry padding of their own
+LeadScopeAll == "all"
+LeadScopeProps == "props"
+LeadScope == LeadScopeAll
+Lead420 == {<<4, 20>>}                    \* a note of 36 bytes: owner "GNU", a 20-byte descriptor (the build-id size)
+Lead31b == {<<3, 1>>, <<4, 20>>}          \* notes of 20 and of 36 bytes
 Tails0 == {0}
 Tails048 == {0, 4, 8}
 Tails04 == {0, 4}
@@ -410,8 +444,9 @@ AddTyped(ns, t) ==
 OnlyLead == Len(notes) <= 1 /\ \A i \in 1..Len(notes) : notes[i].role = "lead"
 DescOpen == phase = "write" /\ Mode = "desc" /\ props = <<>> /\ OnlyLead
 Plain(i, sz, mark) == [RawNote(i, sz[1], sz[2], cf) EXCEPT !.role = mark]
-AddLead(sz) == DescOpen /\ BaseEt(cf) /\ notes = <<>> /\ notes' = <<Plain(1, sz, "lead")>> /\ UNCHANGED <<props, stabs>> /\ Keep
-AddDescNote(n) == DescOpen /\ notes' = Append(notes, n) /\ UNCHANGED <<props, stabs>> /\ Keep
+AddLead(sz) == DescOpen /\ BaseEt(cf) /\ notes = <<>> /\ (LeadScope = "props" => ~cf.core)
+               /\ notes' = <<Plain(1, sz, "lead")>> /\ UNCHANGED <<props, stabs>> /\ Keep
+AddDescNote(n) == DescOpen /\ (LeadScope = "props" => notes = <<>>) /\ notes' = Append(notes, n) /\ UNCHANGED <<props, stabs>> /\ Keep
 AddAbi(os) == ~cf.core /\ AddDescNote(AbiNote(os, cf))
 AddBuildId(n) == ~cf.core /\ AddDescNote(BuildIdNote(n))
 AddGold == ~cf.core /\ AddDescNote(GoldNote)
@@ -430,6 +465,7 @@ CloseProps ==
 DescDone == Len(notes) > 0 /\ notes[Len(notes)].role # "lead"
 AddFollow(sz) ==
   /\ phase = "write" /\ Mode = "desc" /\ BaseEt(cf) /\ props = <<>> /\ DescDone /\ notes[Len(notes)].role # "follow"
+  /\ (LeadScope = "props" => notes[1].role # "lead")
   /\ notes' = Append(notes, Plain(Len(notes) + 1, sz, "follow"))
   /\ UNCHANGED <<props, stabs>> /\ Keep
 
@@ -440,6 +476,21 @@ AddStab(v) ==
   /\ phase = "write" /\ Mode = "stabs" /\ Len(stabs) < MaxStabs
   /\ stabs' = Append(stabs, CanonL(StabF, StabVal(v)))
   /\ UNCHANGED <<notes, props>> /\ Keep
+\* a compilation unit opens with a synthetic N_UNDF stab (GDB stabs, "Stab Section Basics"): n_strx = offset of the file name,
+\* n_type = N_UNDF (0), n_other = 0, n_desc = count of the stabs that follow in this unit, n_value = size of the unit's fragment
+\* of the string table.  The count is not known while the unit is open: the abstract record carries 0 and StabRecs fills it in.
+N_UNDF == U(N(0), 1)
+IsUndf(r) == r.n_type = N_UNDF
+UndfVal(k) == [n_strx |-> N(1 + 7 * k), n_type |-> N(0), n_other |-> N(0), n_desc |-> N(0), n_value |-> N(19 + k)]
+AddUndf ==
+  /\ phase = "write" /\ Mode = "stabs" /\ Len(stabs) < MaxStabs
+  /\ stabs' = Append(stabs, CanonL(StabF, UndfVal(Cardinality({i \in 1..Len(stabs) : IsUndf(stabs[i])}))))
+  /\ UNCHANGED <<notes, props>> /\ Keep
+\* the stabs of the unit that record i opens: up to the next header or the end of the section
+RECURSIVE UnitLen(_, _)
+UnitLen(ss, i) == IF i >= Len(ss) \/ IsUndf(ss[i + 1]) THEN 0 ELSE 1 + UnitLen(ss, i + 1)
+StabRecs(ss) == [i \in 1..Len(ss) |-> IF IsUndf(ss[i]) THEN [ss[i] EXCEPT !.n_desc = U(N(UnitLen(ss, i) % 65536), 2)] ELSE ss[i]]
+UnitHeads(ss) == {i \in 1..Len(ss) : IsUndf(ss[i])}
 
 StartW(who, from, to) == [who |-> who, off |-> from, end |-> to, pc |-> "hdr", cur |-> NoCur]
 Finish(tail) ==
@@ -460,7 +511,7 @@ Finish(tail) ==
   /\ UNCHANGED <<Mode, cf, notes, props, stabs, outs>>
 FinishStabs ==
   /\ phase = "write" /\ Mode = "stabs"
-  /\ LET data == EncStabs(stabs, cf)
+  /\ LET data == EncStabs(StabRecs(stabs), cf)
          im == StabIm(cf, data)
          so == SecOff(im, 1)
      IN /\ cs' = Chunks(im)
@@ -529,6 +580,7 @@ Next ==
   \/ CloseProps
   \/ \E sz \in Follows : AddFollow(sz)
   \/ \E v \in {1, 2, 3} : AddStab(v)
+  \/ AddUndf
   \/ \E t \in Tails : Finish(t)
   \/ FinishStabs
   \/ WalkStep
@@ -547,7 +599,7 @@ NoteView(n, off, c) ==
    opaque |-> Opaque(n.name, n.type, c.core),
    dk |-> n.dec.k, df |-> n.dec.f, dn |-> n.dec.nm]
 NotesView(base) == [i \in 1..Len(notes) |-> NoteView(notes[i], NoteOff(notes, i, base), cf)]
-StabView(base) == [i \in 1..Len(stabs) |-> [off |-> base + StabSize * (i - 1), f |-> stabs[i]]]
+StabView(base) == LET rs == StabRecs(stabs) IN [i \in 1..Len(stabs) |-> [off |-> base + StabSize * (i - 1), f |-> rs[i]]]
 
 \* descriptor decoders (what a reader that knows the layouts recovers from the descriptor bytes)
 RECURSIVE PropWalk(_, _, _, _)
@@ -556,6 +608,15 @@ PropWalk(bs, pos, cls, le) ==
   ELSE LET n == Le4(Slice(bs, pos + 5, 4), le) IN
        <<[ptype |-> FixDec(Slice(bs, pos + 1, 4), le, FALSE).d, data |-> Slice(bs, pos + 9, n)]>>
        \o PropWalk(bs, pos + RoundUp(8 + n, PropAlign(cls)), cls, le)
+\* where property i of a list starts, counted from the start of the descriptor, when the descriptor lies at file offset b and
+\* every property is taken to start at a FILE offset that is a multiple of A.  b = 0: the linux-abi reading (each element is
+\* pr_type, pr_datasz, pr_data, pr_padding up to a multiple of A: the place of the next one depends on pr_datasz alone)
+RECURSIVE PropPos(_, _, _, _)
+PropPos(ps, i, A, b) == IF i <= 1 THEN 0 ELSE RoundUp(b + PropPos(ps, i - 1, A, b) + 8 + Len(ps[i - 1].data), A) - b
+\* the file offset of the descriptor of a yielded note
+DescOff(o) == o.off + NhdrSize + Pad4(o.namesz)
+PropAbsDiffersAt(n, o) == n.dec.k = "props" /\ \E j \in 2..(Len(n.dec.f) + 1) :
+                             PropPos(n.dec.f, j, PropAlign(cf.cls), DescOff(o)) # PropPos(n.dec.f, j, PropAlign(cf.cls), 0)
 RECURSIVE CStrs(_, _, _)
 CStrs(bs, pos, k) == IF k = 0 THEN <<>> ELSE LET s == CStrAt(bs, pos) IN <<s.s>> \o CStrs(bs, pos + s.used, k - 1)
 DecNtFile(bs, c) ==
@@ -575,7 +636,12 @@ DecodeDesc(k, bs, c) ==
 
 (* ------------------------------ emission ------------------------------- *)
 BareFinal == notes # <<>> /\ notes[Len(notes)].name = <<>> /\ notes[Len(notes)].desc = <<>> /\ ext.tail = 0
-Tag == IF Mode = "stabs" THEN "stabs"
+\* does the reading "properties start at aligned file offsets" walk some property list of this extent differently?
+PropAbsDiffers == LET vs == CoreViews(ext.secstart) IN \E i \in 1..Len(notes) : PropAbsDiffersAt(notes[i], vs[i])
+StabUnits == Cardinality(UnitHeads(stabs))
+\* ("stabs/units": some header's unit ends before the section does, i.e. a further header follows)
+Tag == IF Mode = "stabs" THEN (IF StabUnits >= 2 THEN "stabs/units" ELSE "stabs")
+       ELSE IF Mode = "desc" /\ PropAbsDiffers THEN "desc/props-off-alignment"
        ELSE IF Mode = "align" THEN "align/p_align=" \o ToString(cf.palign) \o "/sh_addralign=" \o ToString(cf.salign)
        ELSE IF BareFinal THEN "bare-final" ELSE Mode
 \* does the 8-byte reading walk this extent differently (another place for some note, or for the end)?
@@ -587,10 +653,11 @@ Tables == [gnu |-> [i \in 1..Len(GnuTypes) |-> <<GnuTypes[i][1].d, GnuTypes[i][2
            abi_os |-> [i \in 1..Len(AbiOsTab) |-> <<LEn(AbiOsTab[i][1], 4), AbiOsTab[i][2]>>],
            prop |-> [i \in 1..Len(PropTab) |-> <<PropTab[i][1].d, PropTab[i][2]>>]]
 Case == IF Mode = "stabs"
-        THEN [mode |-> Mode, tag |-> Tag, cls |-> cf.cls, le |-> cf.le, chunks |-> cs, sec |-> 1, stabs |-> StabView(ext.secstart)]
+        THEN [mode |-> Mode, tag |-> Tag, cls |-> cf.cls, le |-> cf.le, chunks |-> cs, sec |-> 1, stabs |-> StabView(ext.secstart),
+              units |-> StabUnits]
         ELSE [mode |-> Mode, tag |-> Tag, cls |-> cf.cls, le |-> cf.le, core |-> cf.core, etype |-> cf.et, machine |-> cf.machine, chunks |-> cs,
               sec |-> 1, seg |-> 0, ext |-> <<ext.secstart, ext.secend>>, notes |-> NotesView(ext.secstart),
-              palign |-> cf.palign, salign |-> cf.salign, alt8 |-> Alt8Differs]
+              palign |-> cf.palign, salign |-> cf.salign, alt8 |-> Alt8Differs, propabs |-> PropAbsDiffers]
 Emit == /\ (phase = "done" => CSVWrite("%1$s", <<ToJson(Case)>>, IOEnv.OUT))
         /\ (phase = "write" /\ notes = <<>> /\ props = <<>> /\ stabs = <<>> /\ cf.cls = 32 /\ cf.le =>
               CSVWrite("%1$s", <<ToJson([tables |-> Tables])>>, IOEnv.OUT))
@@ -624,7 +691,26 @@ OnlyDefiningOwnerDecodes ==
       /\ (k # "raw" => TypeFixed(n.name, cf.core) /\ StrictNames(n.name, n.type, cf.core) # {} /\ ~Opaque(n.name, n.type, cf.core))
       /\ (Opaque(n.name, n.type, cf.core) => n.dec = RawDec /\ StrictNames(n.name, n.type, cf.core) = {})
       /\ (~TypeFixed(n.name, cf.core) /\ n.name # OwnerFreeBSD => Opaque(n.name, n.type, cf.core))
-StabsExact == Done /\ ~NotesMode => outs.sec = StabView(ext.secstart) /\ outs.secoff = ext.secend
+StabsExact == Done /\ ~NotesMode => outs.sec = StabView(ext.secstart) /\ outs.secoff = ext.secend /\ Len(outs.sec) = Len(stabs)
+\* units tile the section from the first header on: each header's count reaches exactly to the next header (or the end of
+\* the section), so no header but a last one covers the rest of the section; the count of the encoded header is the derived one
+UnitsTile ==
+  Done /\ ~NotesMode =>
+      LET rs == StabRecs(stabs)   hs == UnitHeads(stabs) IN
+      /\ \A i \in hs : LET n == NatOf(outs.sec[i].f.n_desc.d) IN
+            /\ n = NatOf(rs[i].n_desc.d)
+            /\ i + n <= Len(stabs) /\ (i + n < Len(stabs) => i + n + 1 \in hs)
+            /\ \A j \in (i + 1)..(i + n) : j \notin hs
+\* property lists are walked relative to the descriptor: the elements tile the descriptor whatever its file offset; the reading
+\* by aligned file offsets coincides on descriptors that lie at a multiple of the alignment and differs on every other one
+PropsRelative ==
+  Done /\ NotesMode => \A i \in 1..Len(notes) : notes[i].dec.k = "props" =>
+      LET o == outs.sec[i]   ps == notes[i].dec.f   A == PropAlign(cf.cls)   b == DescOff(o) IN
+      /\ PropWalk(o.desc, 0, cf.cls, cf.le) = ps
+      /\ PropPos(ps, Len(ps) + 1, A, 0) = o.descsz
+      /\ Read(cs, b, o.descsz) = o.desc
+      /\ ((b % A) = 0 => \A j \in 1..(Len(ps) + 1) : PropPos(ps, j, A, b) = PropPos(ps, j, A, 0))
+      /\ ((b % A) # 0 /\ ps # <<>> => PropAbsDiffersAt(notes[i], o))
 \* section header and program header designate the same file bytes, and those are the encoded extent
 ImageCarriesExtent ==
   phase = "sec" /\ w.pc = "hdr" /\ w.off = ext.secstart =>
